@@ -79,8 +79,12 @@ def gen_value(rng, prefixes):
     if r < 0.90:
         p = rng.choice(prefixes)
         return {"$": p + ":" + rng.choice(LOCALS), "type": "prov:QUALIFIED_NAME"}
-    if r < 0.95:
+    if r < 0.93:
         return {"$": rng.choice(STRINGS), "lang": rng.choice(["en", "fr-CA"])}
+    if r < 0.95:
+        # a language tag next to an explicit datatype (the tag wins: the literal is a prov:InternationalizedString)
+        return {"$": rng.choice(STRINGS), "lang": rng.choice(["en", "fr-CA"]),
+                "type": rng.choice(["xsd:string", "prov:InternationalizedString", rng.choice(prefixes) + ":MyType"])}
     return {"$": rng.choice(STRINGS), "type": rng.choice(prefixes) + ":MyType"}
 
 
@@ -451,6 +455,9 @@ def run_xml_case(args):
             return out
         out["status"] = "loaded"
         feats = sorted(c01.diagnose(d))
+        import re as _re
+        if _re.search(r'xml:lang="[^"]*"\s+xsi:type=', text):
+            feats.append("lang-then-type")       # finding C11-F4: which of the two attributes wins follows their order
         out["feats"] = feats
         if c01.has_mixed_kinds(d):
             out["status"] = "loaded-excluded"
@@ -496,6 +503,8 @@ def run_xml_case(args):
 
 def classify(f):
     feats = set(f.get("feats", []))
+    if "lang-then-type" in feats and f.get("what", "").startswith("loaded XML document differs from what the specification reader sees"):
+        return "C11-F4"
     if "prefix-named-default" in feats:
         return "C11-F3"
     if "unprintable-name" in feats:
